@@ -34,9 +34,9 @@ class PathSummary:
 
 
 def _subst_rest(form, vals):
-    """lin() under env.state has already replaced plain names / attributes / subscripts by their current forms; what is left
-    to replace are composite atoms.  An atom whose current form mentions the atom itself (x = x + n) was replaced already."""
-    return subst_form(form, {a: f for a, f in vals.items() if a not in f.atoms()})
+    """lin() under env.state has already replaced every assigned name / attribute / subscript by its current form, and
+    those forms are expressed in the atoms' values on entry: substituting a second time would apply an update twice."""
+    return form
 
 
 def inline_simple_locals(e, fi):
